@@ -108,7 +108,7 @@ def buildTxt (s : Svc) : Rec :=
   { name := s.name, type := Gen.typeTxt, class_ := clsUnique.1, unique := clsUnique.2, ttl := s.otherTtl, created := 0,
     rdata := .txt s.text }
 
-def buildAddr (s : Svc) (version : Nat) (packed : Bytes) : Rec :=
+def buildAddr (s : Svc) (version : Nat) : Bytes → Rec := fun packed =>
   { name := s.server, type := Gen.Responder.addr_type_of_version version, class_ := clsUnique.1, unique := clsUnique.2,
     ttl := s.hostTtl, created := 0, rdata := .addr packed none }
 
